@@ -66,7 +66,7 @@ def run_impl(ctx, driver, casefile, nprocs=0, env=None, timeout=900, args=()):
     return rc, parse_out(out), out, err
 
 
-DRAIN_DEFAULT = "0"
+DRAIN_DEFAULT = "1"      # VERIF_DRAIN=0 switches the look for unreceived messages off
 
 def run_impl_lines(ctx, driver, lines, nprocs=0, env=None, timeout=900, args=(), name="cases", max_restarts=12):
     """Run the driver over case lines; when the process dies, the first case without output is recorded as
